@@ -51,6 +51,8 @@ def run_mutant(m, known_oids):
             return {'id': m['id'], 'status': 'killed', 'by': fo[:6], 'props': props}
         if hints:
             return {'id': m['id'], 'status': 'undecided', 'detail': 'only proof hints fail: %s' % hints[:3]}
+        if G.anchor_skipped:
+            return {'id': m['id'], 'status': 'undecided', 'detail': 'left out: %s' % sorted(G.anchor_skipped.items())[:1]}
         return {'id': m['id'], 'status': 'survived'}
     finally:
         shutil.rmtree(wd, ignore_errors=True)
